@@ -54,6 +54,7 @@ type Config struct {
 	Max      int      `json:"max"`
 	Sel      []string `json:"sel"`
 	Relevant []int    `json:"relevant"`
+	HdrName  string   `json:"hdrname,omitempty"` // spelling of the retry-after header in the policy
 }
 
 type Step struct {
@@ -171,7 +172,7 @@ func (rn *runner) fresh(now int64) {
 			t = sharedConfig.RetryAfterAbsoluteEpoch
 		}
 		rn.tcfg = &sharedConfig.ResponseBasedThrottlingConfig{
-			RetryAfterHeader: hdrName, RetryAfterType: t, RelevantStatuses: rn.cfg.Relevant,
+			RetryAfterHeader: rn.hdrName(), RetryAfterType: t, RelevantStatuses: rn.cfg.Relevant,
 		}
 	case "mem":
 		rn.mem = utils.NewMemoryCache[string, string](rn.clk)
@@ -184,6 +185,21 @@ func (rn *runner) fresh(now int64) {
 		vh.Die("unknown typ %q", rn.cfg.Typ)
 	}
 	verifhook.SetSink(rn.sink)
+}
+
+// name of the retry-after header as the policy spells it
+func (rn *runner) hdrName() string {
+	if rn.cfg.HdrName != "" {
+		return rn.cfg.HdrName
+	}
+	return hdrName
+}
+
+func otherCase(s string) string {
+	if l := strings.ToLower(s); l != s {
+		return l
+	}
+	return strings.ToUpper(s)
 }
 
 func (rn *runner) memKey(o Op) string {
@@ -266,8 +282,11 @@ func (rn *runner) snapshot() (int64, int) {
 
 func (rn *runner) doResp(o Op) {
 	headers := map[string]string{"Content-Type": "text/plain"}
-	if o.HH == 1 {
-		headers[hdrName] = rn.hdrString(o.Hdr)
+	switch o.HH {
+	case 1: // spelled as in the policy
+		headers[rn.hdrName()] = rn.hdrString(o.Hdr)
+	case 2: // the same header in another letter case
+		headers[otherCase(rn.hdrName())] = rn.hdrString(o.Hdr)
 	}
 	body := rn.body(o, headers)
 	rn.mu.Lock()
@@ -310,10 +329,11 @@ func (rn *runner) project(status int, body string, headers map[string]string) ou
 	}
 	res := out{kind: "replay", rv: tag, rst: status, rhdr: -1}
 	if rn.thr != nil {
-		if h, ok := headers[hdrName]; ok {
-			res.rhdr = rn.hdrTicks(h)
-		} else {
-			res.rhdr = -779
+		res.rhdr = -779 // header names are not case sensitive: any spelling of the retry-after header counts
+		for k, h := range headers {
+			if strings.EqualFold(k, rn.hdrName()) {
+				res.rhdr = rn.hdrTicks(h)
+			}
 		}
 	}
 	return res
